@@ -81,7 +81,12 @@ JudgeState(e, bd) ==
      \cup Chk("c10.result", (s.out = 4) => B!DrawSomewhere(bd))
      \cup Chk("c10.draw-missed", (bd.fresh /\ B!DrawNow(bd)) => s.out = 4)
         ELSE {})
-  \cup (IF Want("C14") THEN Chk("c14.engine-fen", s.fen = Encode(pos, B!NoProgress(bd), B!FullMoves(bd))) ELSE {})
+  \cup (IF Want("C14") THEN Chk("c14.engine-fen", s.fen = Encode(pos, B!NoProgress(bd), B!FullMoves(bd)))
+                             \cup Chk("c14.engine-board-fen", s.fenb = Encode(pos, B!NoProgress(bd), B!FullMoves(bd))) ELSE {})
+  \* C08: a board the engine hands out is a fork of its game, whatever an earlier holder did to his
+  \cup (IF Want("C08") THEN Chk("c08.engine-board-is-a-fork", s.pos = pos /\ s.np = B!NoProgress(bd) /\ s.fm = B!FullMoves(bd) /\ s.ply = B!Ply(bd)
+                                                             /\ MetaOf(s.last) = B!LastMove(bd)
+                                                             /\ \A c \in 0..1 : (s.castled[c+1] = 1) = B!HasCastled(bd, c)) ELSE {})
   \* C19: a move text is accepted exactly when it denotes a legal move, and a rejected one changes nothing
   \cup (IF Want("C19") THEN Chk("c19.engine-game-state", s.pos = pos /\ s.np = B!NoProgress(bd) /\ s.fm = B!FullMoves(bd) /\ s.ply = B!Ply(bd)
                                                           /\ MetaOf(s.last) = B!LastMove(bd)) ELSE {})
@@ -141,7 +146,7 @@ Next ==
                 board == e.kind \in {"start", "reset", "move", "takeback"}
                 \* the limit an analysis runs under: the one requested (0 = explicitly none), else the engine's default
                 lim == r.s.limit
-                f == (IF board THEN Chk((IF Want("C19") THEN "c19" ELSE "c14") \o ".engine-call-outcome", (e.err = 1) = r.err)
+                f == (IF board THEN Chk((IF Want("C19") THEN "c19" ELSE IF Want("C08") THEN "c08" ELSE "c14") \o ".engine-call-outcome", (e.err = 1) = r.err)
                                ELSE Chk("x.engine-call-outcome-" \o e.kind, (e.err = 1) = r.err))
                      \cup JudgeState(e, r.s.bd)
                      \cup (IF e.kind = "takeback" /\ ~r.err THEN Chk("c14.engine-takeback-result", e.state.out = 1) ELSE {})
@@ -163,7 +168,7 @@ Next ==
                /\ valid' = TRUE
        [] e.op = "api-stuck" ->
             \* an engine call that never returned (the harness gave it a minute and ended the run)
-            /\ PrintT("FAIL|" \o ToString(l) \o "|" \o ToString({(IF Want("C15") THEN "c15" ELSE IF Want("C19") THEN "c19" ELSE "c14") \o ".engine-call-never-returns-" \o e.kind}))
+            /\ PrintT("FAIL|" \o ToString(l) \o "|" \o ToString({(IF Want("C15") THEN "c15" ELSE IF Want("C19") THEN "c19" ELSE IF Want("C08") THEN "c08" ELSE "c14") \o ".engine-call-never-returns-" \o e.kind}))
             /\ UNCHANGED <<oracle, valid, act>>
        [] e.op = "readout" ->
             /\ LET f == JudgeReadout(e) IN f # {} => PrintT("FAIL|" \o ToString(l) \o "|" \o ToString(f))
